@@ -44,6 +44,7 @@ type scheduler struct {
 	killing     bool
 	preempts    int
 	maxPreempt  int
+	single      bool
 	wg          sync.WaitGroup
 	aliveAtExit int
 }
